@@ -216,32 +216,14 @@ def run_bounded(prop, tier, seed):
     return out
 
 
-def main(argv=None):
-    ap = argparse.ArgumentParser()
-    ap.add_argument('prop')
-    ap.add_argument('--tier', default=os.environ.get('VERIF_TIER', 'quick'))
-    ap.add_argument('--replay')
-    ap.add_argument('--only', help='regex on contract names')
-    ap.add_argument('-v', action='store_true')
-    a = ap.parse_args(argv)
-    prop = a.prop
-    tier = a.tier if a.tier in ('quick', 'thorough') else 'quick'
-    seed = int(os.environ.get('VERIF_SEED', '0') or 0)
-    t0 = time.time()
-    if a.replay:
-        return replay_file(a.replay)
-    items, files, mods = load_contracts(prop)
-    if a.only:
-        items = [c for c in items if re.search(a.only, c.name)]
-    known = load_known()
-    expected = load_expected()
+def run_items(prop, tier, seed, items, expected, verbose=False):
+    """verify + cross-check + triage a list of contracts; returns a
+    JSON-able dict (so that shards can run in separate processes)"""
     eng = Engine(prop, tier, seed)
     for c in items:
-        if getattr(c, 'tier', 'quick') == 'thorough' and tier == 'quick':
-            continue
         t1 = time.time()
         eng.verify(c)
-        if a.v:
+        if verbose:
             print('  [%5.1fs] %s' % (time.time() - t1, c.name), flush=True)
     eng.finish_cross()
     # a contract clause that fails natively at a sampled input is a replayed
@@ -276,13 +258,130 @@ def main(argv=None):
             except Exception as e:
                 eng.errors.append('triage %s: %s' % (ob.name, e))
                 ob.status = 'undecided'
-    bounded = run_bounded(prop, tier, seed)
+    obs = []
+    for o in eng.obligations:
+        d = o.to_json()
+        d['prop'] = o.prop
+        d['kind'] = o.kind
+        d['replay'] = o.replay
+        obs.append(d)
+    return {'obligations': obs, 'functions': eng.functions,
+            'cross': eng.cross, 'errors': eng.errors,
+            'files': dict(eng.interp.files_read) if eng.interp else {},
+            'stats': {k: dict(v) for k, v in STATS.by_backend.items()},
+            'solver_s': STATS.solver_s}
+
+
+def merge_results(parts):
+    out = {'obligations': [], 'functions': {}, 'errors': [], 'files': {},
+           'cross': {'samples': 0, 'disagreements': 0, 'functions': 0,
+                     'skipped': []}, 'stats': {}, 'solver_s': 0.0}
+    for p in parts:
+        out['obligations'].extend(p['obligations'])
+        for k, v in p['functions'].items():
+            if k in out['functions']:
+                out['functions'][k]['paths'] = out['functions'][k].get(
+                    'paths', 0) + v.get('paths', 0)
+            else:
+                out['functions'][k] = v
+        out['errors'].extend(p['errors'])
+        out['files'].update(p['files'])
+        for k in ('samples', 'disagreements', 'functions'):
+            out['cross'][k] += p['cross'][k]
+        out['cross']['skipped'].extend(p['cross']['skipped'])
+        for k, v in p['stats'].items():
+            d = out['stats'].setdefault(k, {'queries': 0, 'seconds': 0.0})
+            d['queries'] += v['queries']
+            d['seconds'] += v['seconds']
+        out['solver_s'] += p['solver_s']
+    return out
+
+
+class _Ob:
+    """obligation as merged from shard JSON"""
+
+    def __init__(self, d):
+        self.__dict__.update(d)
+        self.model = d.get('counterexample')
+        self.detail = d.get('detail')
+        self.clause = d.get('clause')
+
+    def to_json(self):
+        return {k: v for k, v in self.__dict__.items()
+                if k in ('name', 'status', 'paths', 'queries', 'seconds',
+                         'backend', 'clause', 'detail', 'counterexample')
+                and v is not None}
+
+
+def main(argv=None):
+    ap = argparse.ArgumentParser()
+    ap.add_argument('prop')
+    ap.add_argument('--tier', default=os.environ.get('VERIF_TIER', 'quick'))
+    ap.add_argument('--replay')
+    ap.add_argument('--only', help='regex on contract names')
+    ap.add_argument('--jobs', type=int, default=int(
+        os.environ.get('PVC_JOBS', '12')))
+    ap.add_argument('--shard')
+    ap.add_argument('--shard-out')
+    ap.add_argument('--no-bounded', action='store_true')
+    ap.add_argument('-v', action='store_true')
+    a = ap.parse_args(argv)
+    prop = a.prop
+    tier = a.tier if a.tier in ('quick', 'thorough') else 'quick'
+    seed = int(os.environ.get('VERIF_SEED', '0') or 0)
+    t0 = time.time()
+    if a.replay:
+        return replay_file(a.replay)
+    items, files, mods = load_contracts(prop)
+    if a.only:
+        items = [c for c in items if re.search(a.only, c.name)]
+    items = [c for c in items if not (getattr(c, 'tier', 'quick') ==
+                                      'thorough' and tier == 'quick')]
+    known = load_known()
+    expected = load_expected()
+    if a.shard:
+        i, n = [int(x) for x in a.shard.split('/')]
+        mine = [c for k, c in enumerate(items) if k % n == i]
+        res = run_items(prop, tier, seed, mine, expected, a.v)
+        with open(a.shard_out, 'w') as f:
+            json.dump(res, f, default=str)
+        return 0
+    njobs = max(1, min(a.jobs, len(items)))
+    if njobs == 1:
+        res = run_items(prop, tier, seed, items, expected, a.v)
+    else:
+        import tempfile
+        tmpd = tempfile.mkdtemp(prefix='pvc_shards_')
+        procs = []
+        for i in range(njobs):
+            outp = os.path.join(tmpd, 'shard%d.json' % i)
+            cmd = [sys.executable, '-m', 'pvc.cli', prop, '--tier', tier,
+                   '--shard', '%d/%d' % (i, njobs), '--shard-out', outp]
+            if a.only:
+                cmd += ['--only', a.only]
+            if a.v:
+                cmd += ['-v']
+            procs.append((subprocess.Popen(cmd, cwd=VERIF_ROOT), outp))
+        parts = []
+        shard_fail = []
+        for pr, outp in procs:
+            rc = pr.wait()
+            if rc != 0 or not os.path.exists(outp):
+                shard_fail.append('shard %s exited %s' % (outp, rc))
+                continue
+            parts.append(json.load(open(outp)))
+        import shutil
+        shutil.rmtree(tmpd, ignore_errors=True)
+        res = merge_results(parts)
+        res['errors'].extend(shard_fail)
+    bounded = [] if a.no_bounded else run_bounded(prop, tier, seed)
+    obs = [_Ob(d) for d in res['obligations']]
     # ---- verdicts
     kf = [f for f in known.get('findings', []) if f['property'] == prop]
     lines = []
     violations = []
     known_hit = []
-    for ob in eng.obligations:
+    for ob in obs:
         if ob.status in ('violation', 'violation-noinput',
                          'violation-vacuous'):
             k = match_known(kf, ob.name, ob.model)
@@ -322,26 +421,28 @@ def main(argv=None):
                                     'script': b.get('script')})
         lines.append('VIOLATION property=%s replay=%s' % (prop, p))
         lines.append('  bounded check %s: %s' % (b['name'], fl.get('what')))
-    n_obl = len(eng.obligations)
-    n_dis = sum(1 for o in eng.obligations if o.status == 'discharged')
-    undec = [o for o in eng.obligations if o.status in ('undecided',
-                                                        'unreach')]
+    n_obl = len(obs)
+    n_dis = sum(1 for o in obs if o.status == 'discharged')
+    undec = [o for o in obs if o.status in ('undecided', 'unreach')]
     # ---- evidence
-    ev = build_evidence(prop, tier, seed, eng, files, bounded, known_hit,
+    ev = build_evidence(prop, tier, seed, res, obs, files, bounded, known_hit,
                         violations, bfail, undec, time.time() - t0, items)
     os.makedirs(os.path.join(VERIF_ROOT, 'evidence'), exist_ok=True)
-    with open(os.path.join(VERIF_ROOT, 'evidence', prop + '.json'), 'w') as f:
-        json.dump(ev, f, indent=1, default=str)
+    if not a.only:
+        with open(os.path.join(VERIF_ROOT, 'evidence', prop + '.json'),
+                  'w') as f:
+            json.dump(ev, f, indent=1, default=str)
     for ln in lines:
         print(ln)
+    errors = res['errors']
     print('%s tier=%s obligations=%d discharged=%d known=%d violations=%d '
           'undecided=%d bounded_checks=%d errors=%d wall=%.1fs'
           % (prop, tier, n_obl, n_dis, len(known_hit),
              len(violations) + len(bfail), len(undec), len(bounded),
-             len(eng.errors), time.time() - t0))
+             len(errors), time.time() - t0))
     for o in undec:
         print('  UNDECIDED %s: %s' % (o.name, o.detail))
-    for e in eng.errors:
+    for e in errors:
         print('  ERROR ' + e.splitlines()[0])
         if a.v:
             print(e)
@@ -351,7 +452,7 @@ def main(argv=None):
                                                  b.get('stderr', '')))
     if violations or bfail:
         return 1
-    if eng.errors or any(b.get('error') for b in bounded):
+    if errors or any(b.get('error') for b in bounded):
         return 3
     if n_obl == 0 and not bounded:
         print('  ERROR no obligations generated')
@@ -375,9 +476,8 @@ def match_known(kf, name, model=None, key=None):
     return None
 
 
-def build_evidence(prop, tier, seed, eng, files, bounded, known_hit,
+def build_evidence(prop, tier, seed, res, obs, files, bounded, known_hit,
                    violations, bfail, undec, wall, items):
-    obs = eng.obligations
     n_dis = sum(1 for o in obs if o.status == 'discharged')
     proved_all = (n_dis == len(obs)) and not bounded
     samples = [o.to_json() for o in obs[:3]] + \
@@ -410,11 +510,11 @@ def build_evidence(prop, tier, seed, eng, files, bounded, known_hit,
         '%d obligations, %d discharged by SMT; %d bounded stand-ins '
         '(labelled, never counted as proved)' % (len(obs), n_dis,
                                                  len(bounded)),
-        'functions_under_contract': list(eng.functions.values()),
+        'functions_under_contract': list(res['functions'].values()),
         'by_backend': {k: {'queries': v['queries'],
                            'seconds': round(v['seconds'], 3)}
-                       for k, v in STATS.by_backend.items()},
-        'solver_seconds': round(STATS.solver_s, 3),
+                       for k, v in res['stats'].items()},
+        'solver_seconds': round(res['solver_s'], 3),
         'by_status': _count(o.status for o in obs),
         'bounded': [{k: v for k, v in b.items() if k != 'failures'}
                     | {'failures': len(b.get('failures', []))}
@@ -422,13 +522,12 @@ def build_evidence(prop, tier, seed, eng, files, bounded, known_hit,
         'undecided': [o.to_json() for o in undec],
         'known_findings': [k['what'] for k, _ in known_hit],
         'extraction_drops': EXTRACTION_DROPS,
-        'cross_check': eng.cross,
+        'cross_check': res['cross'],
         'samples': samples,
         'obligation_names': [o.name + ' => ' + str(o.status) for o in obs],
         'slow': [o.name for o in obs if o.seconds > 5],
         'sources': {os.path.relpath(p, REPO_ROOT) if p.startswith(REPO_ROOT)
-                    else p: h for p, h in
-                    (eng.interp.files_read.items() if eng.interp else [])},
+                    else p: h for p, h in res['files'].items()},
         'evaluations': len(obs) + sum(b.get('n', 0) for b in bounded),
         'distinct_nontrivial': max(2, n_dis),
         'rule': 'one evaluation per proof obligation (name = property:'
